@@ -28,8 +28,8 @@ const (
 )
 
 func obsCell(c int, o uint32) uint64 { return uint64(c)<<28 | uint64(o) }
-func isCell(x uint64) bool          { return x >= 1<<28 }
-func cellOf(x uint64) (int, uint32) { return int(x >> 28), uint32(x & (1<<28 - 1)) }
+func isCell(x uint64) bool           { return x >= 1<<28 }
+func cellOf(x uint64) (int, uint32)  { return int(x >> 28), uint32(x & (1<<28 - 1)) }
 
 var clsName = []string{"?", "ROM", "SRAM", "WRAM"}
 
@@ -202,69 +202,80 @@ func (u *sysUnderTest) writeProbe(obs []uint64, samples func(bank uint32) []uint
 		ref[c] = append([]byte(nil), u.arr[c]...)
 	}
 	total := 0
-	one := func(n uint32, v byte, watch uint64, haveWatch bool) writeResult {
+	restoreAll := func() {
+		for c := 1; c <= 3; c++ {
+			copy(u.arr[c], ref[c])
+		}
+	}
+	// one write; which of the candidate bytes (the cell reads come from, the cell lorom designates, the
+	// watched bytes) changed?  Every changed candidate is put back.
+	one := func(n uint32, v byte, watch []uint64) writeResult {
 		w := writeResult{n: n}
 		w.panicked = !u.write(n, v)
-		cands := []uint64{}
-		if isCell(obs[n]) {
-			cands = append(cands, obs[n])
-		}
-		if p, err := lorom.BusAddressToPak(n); err == nil {
-			if e, ok := u.pakCell(p); ok && u.inArray(e) && (len(cands) == 0 || cands[0] != e) {
-				cands = append(cands, e)
-			}
-		}
-		if haveWatch {
-			cands = append(cands, watch)
-		}
-		for _, x := range cands {
+		check := func(x uint64) {
 			c, o := cellOf(x)
 			if u.arr[c][o] != ref[c][o] {
-				dup := false
-				for _, h := range w.hits {
-					dup = dup || h == x
-				}
-				if !dup {
-					w.hits = append(w.hits, x)
-				}
 				u.arr[c][o] = ref[c][o]
+				for _, h := range w.hits {
+					if h == x {
+						return
+					}
+				}
+				w.hits = append(w.hits, x)
 			}
 		}
+		if isCell(obs[n]) {
+			check(obs[n])
+		}
+		if p, err := lorom.BusAddressToPak(n); err == nil {
+			if e, ok := u.pakCell(p); ok && u.inArray(e) {
+				check(e)
+			}
+		}
+		for _, x := range watch {
+			check(x)
+		}
 		return w
+	}
+	// every array byte that differs from the reference (at most limit of them)
+	strays := func(limit int) []uint64 {
+		var d []uint64
+		for c := 1; c <= 3; c++ {
+			if bytes.Equal(u.arr[c], ref[c]) {
+				continue
+			}
+			for i := range ref[c] {
+				if u.arr[c][i] != ref[c][i] && len(d) < limit {
+					d = append(d, obsCell(c, uint32(i)))
+				}
+			}
+		}
+		return d
 	}
 	for bank := uint32(0); bank < 256; bank++ {
 		ss := samples(bank)
 		res := make([]writeResult, len(ss))
 		for i, n := range ss {
-			res[i] = one(n, byte(254+(n&1)), 0, false)
+			res[i] = one(n, byte(254+(n&1)), nil)
 		}
 		total += len(ss)
-		// anything else changed?  (a write that strayed to a byte outside the candidates)
-		for guard := 0; guard < 64; guard++ {
-			stray, found := uint64(0), false
-			for c := 1; c <= 3 && !found; c++ {
-				if !bytes.Equal(u.arr[c], ref[c]) {
-					for i := range ref[c] {
-						if u.arr[c][i] != ref[c][i] {
-							stray, found = obsCell(c, uint32(i)), true
-							u.arr[c][i] = ref[c][i]
-							break
-						}
-					}
-				}
-			}
-			if !found {
-				break
-			}
-			// replay this bank's writes watching that byte to find who writes it
+		// did anything else change?  (a write that went to a byte outside its candidates)  Then repeat this
+		// bank's writes watching those bytes, to attribute each to the address that writes it.
+		if d := strays(1024); len(d) > 0 {
+			restoreAll()
 			for i, n := range ss {
-				w := one(n, byte(254+(n&1)), stray, true)
+				w := one(n, byte(254+(n&1)), d)
 				for _, h := range w.hits {
-					if h == stray {
-						res[i].hits = append(res[i].hits, stray)
+					known := false
+					for _, g := range res[i].hits {
+						known = known || g == h
+					}
+					if !known {
+						res[i].hits = append(res[i].hits, h)
 					}
 				}
 			}
+			restoreAll()
 		}
 		for _, w := range res {
 			each(w)
